@@ -1,11 +1,145 @@
 /-
-  C08 — property theorems only (placeholder until the refinement proof lands).
+  C08 — the verdict (and the annotations, and panics) do not depend on the Go representation of the instance:
+  named numeric kinds, json.Number, pointers and interfaces at any depth, typed slices and maps.
+  Property theorems only (helper lemmas: JSV/Proofs/InvRepr.lean, JSV/Proofs/InvRepr2.lean).
 -/
-import JSV.Model.Validate
+import JSV.Proofs.InvRepr2
+import JSV.Props.C01
 namespace JSV.C08
-open JSV Go
+open JSV Go GoVal Refine
 
-theorem validateFuel_zero (env : VEnv) (stack : List NodeId) (i : GoVal) (s : NodeId) :
-    validateFuel env 0 stack i s = .fuel := rfl
+/-! ## what the blocks observe of an instance -/
+
+theorem jsonType_repr (g : GoVal) (j : Json) (h : GoVal.denote g = some j) :
+    GoVal.jsonType (GoVal.strip g) = some j.typeName :=
+  Inv.jsonType_repr g j h
+
+theorem jsonNumber_repr (g : GoVal) (j : Json) (h : GoVal.denote g = some j) :
+    GoVal.jsonNumber (GoVal.strip g) = (match j with | .num q => some q | _ => none) := by
+  rw [Inv.jsonNumber_repr g j h]; cases j <;> rfl
+
+theorem stringOf_repr (g : GoVal) (j : Json) (h : GoVal.denote g = some j) :
+    Go.stringOf (GoVal.strip g) = (match j with | .str s => some s | _ => none) := by
+  rw [Inv.stringOf_repr g j h]; cases j <;> rfl
+
+/-- equalValue gives the same answer on any two pairs of representations (from `C11.equal_iff`) -/
+theorem equalValue_repr (x1 x2 y1 y2 : GoVal) (jx jy : Json)
+    (hx1 : GoVal.denote x1 = some jx) (hx2 : GoVal.denote x2 = some jx)
+    (hy1 : GoVal.denote y1 = some jy) (hy2 : GoVal.denote y2 = some jy) :
+    Go.equalValue x1 y1 = Go.equalValue x2 y2 := by
+  rw [C11.equal_iff x1 y1 jx jy hx1 hy1, C11.equal_iff x2 y2 jx jy hx2 hy2]
+
+/-- the uniqueItems block gives the same answer on any two representations of the same items, for every
+    hash function that respects equality (from `C12.unique_correct`); no statement about the hash values of
+    different representations is needed beyond that -/
+theorem uniqueItems_repr (hash : GoVal → UInt64) (hh : ∀ x y, Go.equalValue x y = .ok true → hash x = hash y)
+    (items1 items2 : List GoVal) (js : List Json)
+    (h1 : GoVal.denoteList items1 = some js) (h2 : GoVal.denoteList items2 = some js) (hw : Json.wfList js = true) :
+    Go.uniqueItems hash items1 = Go.uniqueItems hash items2 := by
+  rw [C12.unique_correct hash items1 js h1 hw (fun x y _ _ he => hh x y he),
+      C12.unique_correct hash items2 js h2 hw (fun x y _ _ he => hh x y he)]
+
+/-! ## the evaluator -/
+
+/-- **main**: every representation of a JSON value gets the verdict and annotations of the canonical decoding -/
+theorem validate_repr (env : Go.VEnv) (hh : ∀ x y, Go.equalValue x y = .ok true → env.hash x = env.hash y) :
+    ∀ fuel stack s (g : GoVal) (j : Json), GoVal.denote g = some j → Json.WF j = true →
+      Go.validateFuel env fuel stack g s = Go.validateFuel env fuel stack (GoVal.ofJson j) s :=
+  fun fuel stack s g j hg hw => Inv.validateFuel_repr env hh fuel stack s g j hg hw
+
+/-- any two representations of one JSON value are indistinguishable -/
+theorem validate_repr_two (env : Go.VEnv) (hh : ∀ x y, Go.equalValue x y = .ok true → env.hash x = env.hash y)
+    (fuel : Nat) (stack : List NodeId) (s : NodeId) (g1 g2 : GoVal) (j : Json)
+    (h1 : GoVal.denote g1 = some j) (h2 : GoVal.denote g2 = some j) (hw : Json.WF j = true) :
+    Go.validateFuel env fuel stack g1 s = Go.validateFuel env fuel stack g2 s := by
+  rw [validate_repr env hh fuel stack s g1 j h1 hw, validate_repr env hh fuel stack s g2 j h2 hw]
+
+/-- at the entry point `(*Resolved).Validate` -/
+theorem validate_repr_entry (env : Go.VEnv) (hh : ∀ x y, Go.equalValue x y = .ok true → env.hash x = env.hash y)
+    (supported : List String) (fuel : Nat) (root : NodeId) (g : GoVal) (j : Json)
+    (hg : GoVal.denote g = some j) (hw : Json.WF j = true) :
+    Go.validate env supported fuel root g = Go.validate env supported fuel root (GoVal.ofJson j) := by
+  unfold Go.validate
+  rw [validate_repr env hh fuel [] root g j hg hw]
+
+/-- with `C01.C01_main`: whenever the Spec decides, `Validate` on ANY representation of the instance returns nil
+    exactly when the instance is valid -/
+theorem validate_repr_decides (env : VEnv) (hwf : EnvWF env) (hst : StoreWF env.st) (fuel : Nat) (root : NodeId)
+    (j : Json) (hj : Json.WF j = true) (b : Bool) (hs : Spec.valid (specEnvOf env) fuel root j = some b)
+    (supported : List String) (rn : Node) (hroot : env.st.get? root = some rn)
+    (hsup : supported.contains rn.schema = true) (g : GoVal) (hg : GoVal.denote g = some j) :
+    Go.validate env supported fuel root g = if b then .ok () else .err := by
+  rw [validate_repr_entry env hwf.hash_respects supported fuel root g j hg hj]
+  exact C01.C01_main env hwf hst fuel root j hj b hs supported rn hroot hsup
+
+/-! ## The hypotheses are satisfiable on non-trivial data
+
+`{"a":[1,1.5,null],"b":"x","c":2}` decoded by encoding/json, and the same value held in typed Go data:
+named ints, a json.Number, pointers, interfaces. -/
+
+def exJ : Json := .obj [("a", .arr [.num 1, .num (mkRat 3 2), .null]), ("b", .str "x"), ("c", .num 2)]
+def exG : GoVal :=
+  .ptr (.map [("a", .iface (.list [.int 1, .ptr (.float (mkRat 3 2)), .ptr .invalid])), ("b", .iface (.str "x")),
+              ("c", .jnum (some 2) "2.0")])
+def exG2 : GoVal :=
+  .iface (.map [("a", .list [.uint 1, .jnum (some (mkRat 3 2)) "1.5", .invalid]), ("b", .str "x"), ("c", .int 2)])
+
+example : GoVal.denote exG = some exJ := by rfl
+example : GoVal.denote exG2 = some exJ := by rfl
+example : GoVal.denote (GoVal.ofJson exJ) = some exJ := by rfl
+example : Json.WF exJ = true := by decide
+
+/-- `{"properties":{"a":{"items":{"type":["number","null"]},"uniqueItems":true,"contains":{"const":1.5}},"c":{"type":"integer","enum":[2]}},
+     "required":["b"],"unevaluatedProperties":{"type":"string"}}` -/
+def exStore : Store := #[
+  { properties := some [("a", 1), ("c", 4)], required := some ["b"], unevaluatedProperties := some 5 },
+  { items := some 2, uniqueItems := true, contains := some 3 },
+  { types := some ["number", "null"] },
+  { const := some (.num (mkRat 3 2)) },
+  { type := "integer", enum := some [.num 2] },
+  { type := "string" } ]
+
+def exInfos : List (NodeId × Info) :=
+  [(0, { path := "root", base := some 0 }), (1, { base := some 0 }), (2, { base := some 0 }), (3, { base := some 0 }),
+   (4, { base := some 0 }), (5, { base := some 0 })]
+
+def exEnv : VEnv :=
+  { st := exStore, draft := .d2020, infos := exInfos, reMatch := fun _ _ => false, hash := fun _ => 0 }
+
+/-- `validate_repr_two` applied: the typed data and the decoded data get the same result … -/
+example : Go.validateFuel exEnv 4 [] exG 0 = Go.validateFuel exEnv 4 [] exG2 0 :=
+  validate_repr_two exEnv (fun _ _ _ => rfl) 4 [] 0 exG exG2 exJ rfl rfl (by decide)
+example : Go.validateFuel exEnv 4 [] exG 0 = Go.validateFuel exEnv 4 [] (GoVal.ofJson exJ) 0 :=
+  validate_repr exEnv (fun _ _ _ => rfl) 4 [] 0 exG exJ rfl (by decide)
+/-- … which is "valid" with every property evaluated; by running the model on the three representations -/
+example : (Go.validateFuel exEnv 4 [] exG 0).verdict = some true := by decide
+example : (Go.validateFuel exEnv 4 [] exG2 0).verdict = some true := by decide
+example : (Go.validateFuel exEnv 4 [] (GoVal.ofJson exJ) 0).verdict = some true := by decide
+
+/-! ## why the hash hypothesis is needed
+
+A hash that tells an `int` from a `float64` puts `1` and `1.0` in different buckets: `uniqueItems` then accepts
+`[]any{1, 1.0}` but rejects the decoded `[1, 1.0]`.  (The package's `hashValue` respects equality: `C12.hash_law`.) -/
+
+def badHash : GoVal → UInt64
+  | .int _ => 0
+  | _ => 1
+
+def cexEnv : VEnv :=
+  { st := #[{ uniqueItems := true }], draft := .d2020, infos := [(0, { base := some 0 })],
+    reMatch := fun _ _ => false, hash := badHash }
+
+example : GoVal.denote (.list [.int 1, .float 1]) = some (.arr [.num 1, .num 1]) := by rfl
+example : (Go.validateFuel cexEnv 1 [] (.list [.int 1, .float 1]) 0).verdict = some true := by decide
+example : (Go.validateFuel cexEnv 1 [] (GoVal.ofJson (.arr [.num 1, .num 1])) 0).verdict = some false := by decide
+example : Go.equalValue (.int 1) (.float 1) = .ok true ∧ badHash (.int 1) ≠ badHash (.float 1) := by decide
+
+/-! ## values outside the domain: not a JSON value
+
+`denote g = none` for structs, maps with non-string keys, funcs, and an unparsable json.Number; the theorem says
+nothing about them (the evaluator refuses structs explicitly). -/
+
+example : GoVal.denote (.other .struct) = none := by rfl
+example : (Go.validateFuel cexEnv 1 [] (.other .struct) 0).verdict = some false := by decide
 
 end JSV.C08
